@@ -366,3 +366,70 @@ impl<'a> FmtVisitor<'a> {
         }
     }
 }
+
+#[cfg(feature = "verif-hooks")]
+pub(crate) mod verif_local {
+    use std::sync::Arc;
+
+    use super::*;
+    use crate::Config;
+    use crate::FormatReport;
+    use crate::parse::session::ParseSess;
+    use crate::visitor::SnippetProvider;
+
+    /// Runs `f` on a fresh `FmtVisitor` over an empty snippet whose buffer holds `buffer`
+    /// (put there with `push_str`, so `line_number` is consistent).
+    fn with_visitor<R>(
+        buffer: &str,
+        block_indent: Indent,
+        config: &Config,
+        f: impl FnOnce(&mut FmtVisitor<'_>) -> R,
+    ) -> R {
+        rustc_span::create_session_if_not_set_then(config.edition().into(), |_| {
+            let psess = ParseSess::new(config).expect("parse session");
+            let provider = SnippetProvider::new(BytePos(0), BytePos(0), Arc::new(String::new()));
+            let mut visitor = FmtVisitor::from_psess(&psess, config, &provider, FormatReport::new());
+            visitor.block_indent = block_indent;
+            visitor.push_str(buffer);
+            f(&mut visitor)
+        })
+    }
+
+    /// `FmtVisitor::push_vertical_spaces(newline_count)` on a visitor whose buffer is `buffer`:
+    /// the buffer and `line_number` afterwards.
+    pub(crate) fn push_vertical_spaces(
+        buffer: &str,
+        newline_count: usize,
+        config: &Config,
+    ) -> (String, usize) {
+        with_visitor(buffer, Indent::empty(), config, |v| {
+            v.push_vertical_spaces(newline_count);
+            (std::mem::take(&mut v.buffer), v.line_number)
+        })
+    }
+
+    /// `FmtVisitor::process_missing_code` with `subslice = &snippet[offset..offset + len]` and the
+    /// given status: what was pushed, and `(line_start, last_wspace, cur_line)` afterwards.
+    pub(crate) fn process_missing_code(
+        snippet: &str,
+        offset: usize,
+        len: usize,
+        status: (usize, Option<usize>, usize),
+        block_indent: Indent,
+        config: &Config,
+    ) -> (String, (usize, Option<usize>, usize)) {
+        with_visitor("", block_indent, config, |v| {
+            let mut st = SnippetStatus {
+                line_start: status.0,
+                last_wspace: status.1,
+                cur_line: status.2,
+            };
+            let subslice = &snippet[offset..offset + len];
+            v.process_missing_code(&mut st, snippet, subslice, offset, &FileName::Stdin);
+            (
+                std::mem::take(&mut v.buffer),
+                (st.line_start, st.last_wspace, st.cur_line),
+            )
+        })
+    }
+}
